@@ -77,6 +77,21 @@ Bip143PreimageHT(tx, i, ht) ==
            B(tx.locktime \o <<ht, 0, 0, 0>>) >>)
 DigestHT(tx, i, ht) == H("sha256d", Bip143PreimageHT(tx, i, ht))
 
+\* What a BIP143 signature of a witness input with hash type ht COMMITS TO, by role of the field seen from that input
+\* (MC_SigHash!HashTypeCommitment shows that this table is exactly where DigestHT changes):
+\*   own.*      the input's own outpoint, sequence, amount, key        - always
+\*   other.outpoint / other.seq   another input's outpoint / sequence   - not with ANYONECANPAY / only with plain ALL
+\*   out.same   the output at the input's own index                      - ALL and SINGLE
+\*   out.other  any other output                                         - ALL only
+CommitRoles == {"version", "locktime", "own.outpoint", "own.seq", "own.amount", "own.key", "other.outpoint", "other.seq",
+                "out.same", "out.other"}
+CommitsHT(f, ht) ==
+    \/ f \in {"version", "locktime", "own.outpoint", "own.seq", "own.amount", "own.key"}
+    \/ (f = "other.outpoint" /\ ~AnyoneCanPay(ht))
+    \/ (f = "other.seq" /\ ~AnyoneCanPay(ht) /\ BaseType(ht) = 1)
+    \/ (f = "out.same" /\ BaseType(ht) \in {1, 3})
+    \/ (f = "out.other" /\ BaseType(ht) = 1)
+
 Preimage(tx, i) == IF tx.ins[i].kind \in SegwitKinds THEN Bip143Preimage(tx, i) ELSE LegacyPreimage(tx, i)
 Digest(tx, i) == H("sha256d", Preimage(tx, i))
 =============================================================================
